@@ -197,12 +197,60 @@ def pipe_part(R, tier, seed):
     return cov
 
 
+RACE_THEOREMS = ["ShipVerif.Race.raceCfg_stable", "ShipVerif.Race.raceCfg_recognised", "ShipVerif.Race.C04_call_in_window_refused",
+                 "ShipVerif.Race.C04_abort_not_revived", "ShipVerif.Race.C04_abort_not_revived_repo", "ShipVerif.Race.C01_no_progress_after_abort",
+                 "ShipVerif.Race.C04_abort_in_window_is_revived"]
+
+
+def race_facts():
+    t = open(os.path.join(C.LEAN, "ShipVerif", "Generated", "RaceFacts.lean")).read()
+    nums = lambda name: [int(x) for x in re.findall(r"\d+", re.search(name + r" := \[(.*?)\]", t, re.S).group(1))]
+    w = re.search(r"windows := \[(.*?)\],\n", t, re.S).group(1)
+    return {"windows": set((int(a), int(b)) for a, b in re.findall(r"\((\d+), (\d+)\)", w)), "abort": nums("abortStates"), "approve": nums("approveStates")}
+
+
+def race_corr(line, facts):
+    """one gate scenario against Model/Race.lean: the call reports states iff it found a state it acts in (`accepts`), and
+    the (state in force during the write, first state assigned after it) pair is one of the regenerated windows"""
+    toks = line.split(" | ", 1)[1].split()
+    if not any(t.startswith("PARK:") for t in toks):
+        return None
+    i = next(k for k, t in enumerate(toks) if t.startswith("PARK:"))
+    park = int(toks[i][5:])
+    j = next((k for k in range(i, len(toks)) if toks[k].startswith("EV:user:")), None)
+    r = next((k for k in range(i, len(toks)) if toks[k] == "EV:released"), None)
+    if j is None or r is None:
+        return None
+    op = toks[j][8:].replace("(still-running)", "")
+    st = lambda ts: [int(re.sub(r"\D", "", t)) for t in ts if re.fullmatch(r"S\d+e?", t)]
+    eff = st(toks[j + 1:r])
+    nxt = len(toks)
+    for k in range(r + 1, len(toks)):
+        if toks[k].startswith("EV:"):
+            nxt = k
+            break
+    post = st(toks[r + 1:nxt])
+    out = {"park": park, "op": op, "effect": eff, "post": post[:1]}
+    if op in ("abort", "approve"):
+        acc = park in facts[op]
+        if acc != bool(eff):
+            out["mismatch"] = "the call %s found state %d: Model/Race.lean `accepts` says %s, the implementation reported %s" % (op, park, acc, eff)
+        elif not eff and post and (park, post[0]) not in facts["windows"]:
+            out["mismatch"] = "the handler assigned state %d after a write made in state %d: not among the regenerated windows" % (post[0], park)
+    return out
+
+
 def race_part(R, pid, tier, seed):
     """C01 / C04 with two goroutines: a user call (approve, abort, close, connection error) runs while a message handler
     is blocked inside a transport write; the order-independent parts of the property are evaluated on the observations"""
+    p = C.lake_build(["ShipVerif.Props.C04Race"])
+    lean_ok = p.returncode == 0
+    aud = C.audit(pid + "race", RACE_THEOREMS, ["ShipVerif.Props.C04Race"]) if lean_ok else []
+    facts = race_facts()
+    mism, parks = [], {}
     d = C.workdir(pid + "race")
-    runs = [(seed, 1500)] if tier == "quick" else [(seed + k, 6000) for k in range(4)]
-    scen, raced, bad, ops = 0, 0, [], {}
+    runs = [(seed, 3000)] if tier == "quick" else [(seed + k, 8000) for k in range(4)]
+    scen, raced, bad, ops, sched, obs = 0, 0, [], {}, 0, {}
     for s, n in runs:
         fout = os.path.join(d, "userrace_out.txt")
         q = C.run([C.HARNESS, "userrace", "-seed", str(s), "-n", str(n), "-out", fout], cwd=d, timeout=C.engine_timeout())
@@ -215,11 +263,22 @@ def race_part(R, pid, tier, seed):
             if w[0] == "S":
                 scen += 1
                 by[int(w[1])] = w[2]
+                rc = race_corr(w[2], facts) if not w[2].startswith("sched ") else None
+                if rc:
+                    k = "%s@%d:%s" % (rc["op"], rc["park"], "acts" if rc["effect"] else "refused")
+                    parks[k] = parks.get(k, 0) + 1
+                    if "mismatch" in rc:
+                        mism.append(dict(rc, seed=s, scenario=int(w[1]), observations=w[2]))
+                if w[2].startswith("sched ") and "EV:sched@" in w[2]:
+                    sched += 1
                 if "(blocked-in-write)" in w[2]:
                     raced += 1
                     m = re.search(r"race=(\w+)@", w[2])
                     if m:
                         ops[m.group(1)] = ops.get(m.group(1), 0) + 1
+            elif w[0] == "OBS":
+                k = re.sub(r"\d+", "N", w[2].split(";")[0].split("(")[0]).strip()
+                obs[k] = obs.get(k, 0) + 1
             elif w[0] == "BAD" and w[2].startswith(pid + " "):
                 bad.append({"seed": s, "scenario": int(w[1]), "n": n, "why": w[2], "observations": by.get(int(w[1]), "")})
     if bad:
@@ -227,7 +286,19 @@ def race_part(R, pid, tier, seed):
         R.violation({"property": pid, "kind": "a user call that ran while a message handler was inside a transport write leaves the connection in a history the property forbids",
                      "replay": "harness userrace -seed <seed> -n <n>, scenario <scenario>: one real ShipConnection; `observations` is the linearised record (EV:msg@<state>(blocked-in-write) = the handler is held in its write, EV:user:<call> = the call made meanwhile, EV:released = the write returns)",
                      "count": len(bad), "first": v}, "userrace")
-    return {"race_scenarios": scen, "race_scenarios_with_call_inside_write": raced, "race_user_calls": ops}
+    elif not lean_ok:
+        R.violation({"property": pid, "broken": "lake build ShipVerif.Props.C04Race: the obligation `stable` on the regenerated facts of ship/hs_*.go and ship/connection.go (no user call acts in a state that is in force during a handler's write followed by the assignment of a progress state) no longer checks",
+                     "facts": {"windows": sorted(facts["windows"]), "abortStates": facts["abort"], "approveStates": facts["approve"]},
+                     "detail": (p.stdout or "")[-2500:]}, "raceproof", no_input=True)
+    elif mism:
+        R.violation({"property": pid, "broken": "correspondence Model/Race.lean vs ship.ShipConnection (a user call inside a handler's write)", "count": len(mism), "first": mism[0]}, "racecorr", no_input=True)
+    bad_ax = [a for a in aud if not a["ok"]]
+    if lean_ok and bad_ax:
+        R.violation({"broken": "axiom audit", "theorems": bad_ax}, "raceaxioms", no_input=True)
+    return {"obligations": len(RACE_THEOREMS), "discharged": sum(1 for a in aud if a["ok"]) if lean_ok else 0, "theorems": aud,
+            "race_calls_by_state_in_force": parks, "race_scenarios": scen, "race_scenarios_with_call_inside_write": raced, "race_user_calls": ops,
+            "serial_scheduler_scenarios": sched,
+            "observations_outside_the_quantifier": {"note": "C04 conditions under the serial scheduler (two or three activities of one connection interleaved at writes and state reports); C04 is stated over sequences of events, these are reported and not judged", "counts": obs}}
 
 
 def check(pid, tier, seed):
@@ -325,8 +396,8 @@ def check(pid, tier, seed):
         from . import twohubs
         hubcov = dict(twohubs.th_part(R, pid, tier, seed), obligations=0, discharged=0)
     R.coverage = {
-        "obligations": len(obligations) + (hubcov["obligations"] if hubcov else 0) + (pipecov["obligations"] if pipecov else 0),
-        "discharged": discharged + (hubcov["discharged"] if hubcov else 0) + (pipecov["discharged"] if pipecov else 0),
+        "obligations": len(obligations) + (hubcov["obligations"] if hubcov else 0) + (pipecov["obligations"] if pipecov else 0) + (racecov["obligations"] if racecov else 0),
+        "discharged": discharged + (hubcov["discharged"] if hubcov else 0) + (pipecov["discharged"] if pipecov else 0) + (racecov["discharged"] if racecov else 0),
         "hub_part": hubcov,
         "end_to_end": pipecov,
         "user_call_races": racecov,
